@@ -1041,8 +1041,8 @@ def sweep_histories(maxlen, full_pairs=True, seed=0):
         two = pair_alphabet() if full_pairs else quick_pair_alphabet(seed, size=30)
         for a, b in itertools.product(two, two):
             yield (a, b)
-    if maxlen >= 3:
-        for t in itertools.product(sorted(ALPHABET3), repeat=3):
+    if maxlen >= 3:  # 44 of the 58 letters of the reduced alphabet, rotated by the seed (58^3 = 195 k histories took too long)
+        for t in itertools.product(quick_pair_alphabet(seed, size=44), repeat=3):
             yield t
 
 
@@ -1089,7 +1089,7 @@ def phase_sweep(run, pool, maxlen):
         "alphabet_size": len(ALPHABET), "reduced_alphabet_size": len(ALPHABET3), "max_length": maxlen, "histories": n[0],
         "exhaustive": True,
         "exhaustive_over": ("all 1-letter histories of the full alphabet, all 2-letter histories of the %s alphabet%s"
-                            % ("%d-letter pair" % len(pair_alphabet()) if maxlen >= 3 else "seed-rotated 30-letter sub-", ", all 3-letter histories of the reduced alphabet"
+                            % ("%d-letter pair" % len(pair_alphabet()) if maxlen >= 3 else "seed-rotated 30-letter sub-", ", all 3-letter histories of a seed-rotated 44-letter sub-alphabet of the reduced alphabet"
                                if maxlen >= 3 else "")), "distinct_calls_compared_across_histories": len(table),
         "large_programs": len(large_programs_c18()), "function_x_kind_matrix_programs": len(matrix_programs_c18()),
         "history_independence_conflicts": len(conflicts),
